@@ -342,6 +342,7 @@ func octetTampers(mech, field string, get func(ev *store.Evidence) *[]byte, scal
 		{field + ":one-byte", mech, func(ev *store.Evidence) { *get(ev) = []byte{0x04} }, false},
 	}
 	if scalar {
+		ts = append(ts, tamper{field + ":zero", mech, func(ev *store.Evidence) { *get(ev) = make([]byte, len(*get(ev))) }, false})
 		ts = append(ts, tamper{field + ":plus-one", mech, func(ev *store.Evidence) { *get(ev) = plusOne(*get(ev)) }, false},
 			tamper{field + ":minus-one", mech, func(ev *store.Evidence) { *get(ev) = minusOne(*get(ev)) }, false})
 	}
